@@ -388,6 +388,7 @@ var c16ColDefs = []string{
 	`a UNIQUE`, `a NOT NULL`, `a NULL`, `a COLLATE NOCASE`, `a TEXT COLLATE RTRIM UNIQUE`, `a DEFAULT 1`, `a DEFAULT 'x'`, `a DEFAULT NULL`, `a DEFAULT -2`,
 	`a CHECK (a > 0)`, `a REFERENCES o(x)`, `a REFERENCES o(x) DEFERRABLE`, `a REFERENCES o(x) DEFERRABLE INITIALLY DEFERRED`, `a REFERENCES o(x) ON DELETE CASCADE`,
 	`a REFERENCES o(x) ON DELETE SET NULL ON UPDATE NO ACTION`, `a NOT NULL DEFAULT 'q' COLLATE NOCASE`, `a UNIQUE NOT NULL`, `"a" TEXT`, `[a]`, "`a` INT", `éa TEXT`, `éa`,
+	`"a""q" TEXT`, "`a``q`", "`a``q` INT UNIQUE", `[a q] COLLATE NOCASE`, `"a""q"`,
 }
 
 var c16IdxCols = []string{`a`, `a DESC`, `a ASC`, `a COLLATE NOCASE`, `a COLLATE RTRIM DESC`, `a COLLATE BINARY ASC`, `"a"`, `[a] DESC`, `a + 1`, `lower(a)`, `a COLLATE nocase`, `éa`}
@@ -403,6 +404,15 @@ func c16Rename(el string, i int) (string, string) {
 	// replace the identifier a / "a" / [a] / `a` / éa at the start, and `(a ` inside CHECK
 	repl := func(s, old, new string) string { return strings.Replace(s, old, new, 1) }
 	switch {
+	case strings.HasPrefix(el, `"a""q"`): // a doubled quote inside a quoted name, in every quoting style that has one
+		el = repl(el, `"a""q"`, `"`+name+`""q"`)
+		name += `"q`
+	case strings.HasPrefix(el, "`a``q`"):
+		el = repl(el, "`a``q`", "`"+name+"``q`")
+		name += "`q"
+	case strings.HasPrefix(el, `[a q]`):
+		el = repl(el, `[a q]`, `[`+name+` q]`)
+		name += " q"
 	case strings.HasPrefix(el, `"a"`):
 		el = repl(el, `"a"`, `"`+name+`"`)
 	case strings.HasPrefix(el, `[a]`):
